@@ -9,6 +9,16 @@ def gm(m):
     return np.array([[complex(e[0], e[1]) for e in row] for row in m])
 
 
+SCALE = 4000                 # returned frames are rounded to integers at this scale for the trace
+TOL_GRAM = SCALE * SCALE // 100   # 1% of the squared scale: rounding alone gives <= ~0.15%
+TOL_RES = SCALE * SCALE // 8      # residual of c*g - sum <B_i,g> B_i per entry (rounding accumulates over the basis)
+
+
+def rint(arr):
+    a = np.asarray(arr)
+    return [[[[int(round(float(np.real(z)) * SCALE)), int(round(float(np.imag(z)) * SCALE))] for z in row] for row in m] for m in a]
+
+
 def orthonormal_basis(mats):
     """hand the subspace over as an orthonormal basis (the certificates use absolute thresholds)"""
     A = np.stack([m.reshape(-1) for m in mats])
@@ -30,7 +40,8 @@ def run_basis(ctx, states):
         data = dict(cls=cfg['cls'], n=cfg['n'], seed=cfg['s'], generators=len(gens))
         try:
             basis, compl, label = get_matrix_orthogonal_basis(arr, obs['field'])
-            ev.append(dict(op='basis', gens=obs['gens'], field=obs['field'], label=str(label), nbasis=int(len(basis)), ncompl=int(len(compl))))
+            ev.append(dict(op='basis', gens=obs['gens'], field=obs['field'], label=str(label), nbasis=int(len(basis)), ncompl=int(len(compl)),
+                           basis=rint(basis), compl=rint(compl), scale=SCALE, tol=TOL_GRAM, rtol=TOL_RES))
             meta.append(dict(data, expected=dict(label=obs['label'], dim=obs['dim'], ambient=obs['ambient']), got=dict(label=str(label), nbasis=int(len(basis)), ncompl=int(len(compl)))))
         except Exception as ex:
             ctx.violation('C20:get_matrix_orthogonal_basis:exception', type(ex).__name__ + ': ' + str(ex)[:160], data)
@@ -91,13 +102,86 @@ def run_planted(ctx, states, quick):
     return ev, meta
 
 
+def _numrange_matrix(st):
+    g = lambda z: complex(z[0], z[1])
+    blk = lambda B: np.array([[g(B[0]), g(B[1])], [g(B[2]), g(B[3])]])
+    sh, b1, b2, c = st['shape'], blk(st['B1']), blk(st['B2']), g(st['c'])
+    if sh == '2':
+        return b1
+    n = dict([('3a', 3), ('3b', 3), ('3c', 3), ('5', 5), ('6', 6)])[sh]
+    A = np.zeros((n, n), dtype=complex)
+
+    def put(idx, M):
+        for a, i in enumerate(idx):
+            for b, j in enumerate(idx):
+                A[i, j] = M[a, b]
+    if sh == '3a':
+        A[0, 0] = c; put([1, 2], b1)
+    elif sh == '3b':
+        A[1, 1] = c; put([0, 2], b1)
+    elif sh == '3c':
+        A[2, 2] = c; put([0, 1], b1)
+    elif sh == '5':
+        put([0, 1], b1); A[2, 2] = c; put([3, 4], b2)
+    else:
+        put([0, 3], b1); put([1, 4], b2); A[2, 2] = c; A[5, 5] = np.conj(c)
+    return A
+
+
+def run_numrange(ctx, quick):
+    """support function of the numerical range: exact values from MC_NumRange, replayed into get_matrix_numerical_range"""
+    from numqi.matrix_space import get_matrix_numerical_range
+    r = tlc.run('contract/MC_NumRange.tla', 'contract/MC_NumRange.cfg', dump=True, timeout=3000)
+    ctx.add_model('MC_NumRange', r)
+    states = list(tlc.parse_dump(r))
+    rng = random.Random(ctx.seed + 20)
+    if quick:
+        small = [s for s in states if s['shape'] == '2']
+        big = [s for s in states if s['shape'] != '2']
+        states = rng.sample(small, min(len(small), 700)) + rng.sample(big, min(len(big), 900))
+    for k, st in enumerate(states):
+        A = _numrange_matrix(st)
+        n = A.shape[0]
+        sup = [st['sup4'][j] / 4 for j in range(4)]
+        refl = None
+        if k % 3 == 1:           # unitary similarity (rational Householder reflection) leaves W(A) unchanged
+            v = np.array([(3 * i + 1 + k) % 5 - 2 for i in range(n)], dtype=float)
+            if np.abs(v).sum() > 0:
+                refl = v.tolist()
+                Hh = np.eye(n) - 2 * np.outer(v, v) / (v @ v)
+                A = Hh @ A @ Hh
+        ctx.case(('numrange', st['shape'], tuple(map(tuple, st['B1'])), tuple(st['c']), k % 3 == 1))
+        data = dict(shape=st['shape'], B1=st['B1'], B2=st['B2'], c=st['c'], householder=refl, support_at_axes=sup)
+        try:
+            for num in (5, 9):
+                z = np.asarray(get_matrix_numerical_range(A, num))
+                step = (num - 1) // 4
+                for j in range(num):
+                    if j % step:
+                        continue
+                    kk = (j // step) % 4
+                    val = (np.exp(0.5j * np.pi * kk) * z[j]).real
+                    if abs(val - sup[kk]) > 1e-8:
+                        ctx.violation('C20:get_matrix_numerical_range:support', 'the point returned for direction theta=%d*pi/2 (num_point=%d) gives Re(e^{i theta} z)=%.9f, the support function is %s'
+                                      % (kk, num, val, sup[kk]), data)
+                # every returned point must lie in W(A): below the support function in the four exact directions
+                for kk in range(4):
+                    if ((np.exp(0.5j * np.pi * kk) * z).real > sup[kk] + 1e-8).any():
+                        ctx.violation('C20:get_matrix_numerical_range:outside', 'a returned point lies outside the numerical range (beyond the support line at theta=%d*pi/2)' % kk, data)
+            ctx.traces += 1
+        except Exception as ex:
+            ctx.violation('C20:exception:get_matrix_numerical_range', type(ex).__name__ + ': ' + str(ex)[:160], data)
+    ctx.sample(dict(kind='numerical-range', shape=states[-1]['shape'], B1=states[-1]['B1'], c=states[-1]['c'], support_x4=states[-1]['sup4']))
+
+
 def run(ctx):
     quick = ctx.tier == 'quick'
     ctx.rule = ('structure classes R, R_T, C, C_T (real and complex generators), C_H, R_cT, R_c with integer generators incl. planted dependencies, sizes 2..%d (non-square for the general classes): label, exact '
-                'dimension of the span (fraction-free elimination over Z / Z[i]) and complement dimension; planted subspaces (real/complex bipartite with an element of rank r-1 for r=2,3; tripartite with a product '
-                'vector) hidden by a unimodular basis change and handed over as an orthonormal basis: no positive certificate; distinct by instance' % (3 if quick else 4))
+                'dimension of the span (fraction-free elimination over Z / Z[i]) and complement dimension; returned frames (rounded to integers at scale 4000): one common norm, mutually orthogonal, complement orthogonal to the basis, every generator reproduced by its projection (realified block form checked for R_c / R_cT); planted subspaces (real/complex bipartite with an element of rank r-1 for r=2,3; tripartite with a product '
+                'vector) hidden by a unimodular basis change and handed over as an orthonormal basis: no positive certificate; numerical range: every 2x2 Gaussian-integer block with rational support function in the axis directions and direct sums of size 3, 5, 6 (plus rational Householder similarity): returned point attains the exact support function and no point lies outside; distinct by instance' % (3 if quick else 4))
     ctx.assumptions = ['TLC/SANY correct', 'the orthonormal basis handed to the certificates is computed by numpy QR in the harness (the property excludes unnormalised generators)']
-    ctx.not_covered = ['orthogonality / equal norm / equal span of the floating bases (numeric residual)', 'numerical-range support points', 'complement orthogonality']
+    ctx.not_covered = ['numerical-range support points in non-axis directions and of matrices whose support function is irrational', 'SDP-based joint numerical ranges', 'orthonormality of the complement among itself (not part of the property)']
+    ctx.tolerances = dict(frame_scale=SCALE, gram_tolerance=TOL_GRAM / SCALE ** 2, residual_tolerance=TOL_RES / SCALE ** 2)
     r = tlc.run('contract/MC_MatrixSpace.tla', 'contract/MC_MatrixSpace_%s.cfg' % ('q' if quick else 't'), dump=True, timeout=3000)
     ctx.add_model('MC_MatrixSpace', r)
     s1 = list(tlc.parse_dump(r))
@@ -116,10 +200,11 @@ def run(ctx):
     for gi, info in rej:
         if gi < len(ev1):
             m = meta1[gi]
-            ctx.violation('C20:get_matrix_orthogonal_basis:%s' % m['cls'], 'label / dimension of the basis / complement dimension differ from the exact values: expected %s got %s' % (m['expected'], m['got']), m)
+            ctx.violation('C20:get_matrix_orthogonal_basis:%s' % m['cls'], 'rejected clause: %s; exact values %s, returned %s' % (info[-1], m['expected'], m['got']), m)
         else:
             e, m = ev2[gi - len(ev1)], meta2[gi - len(ev1)]
             ctx.violation('C20:%s:unsound-certificate' % e['fn'].split('(')[0], '%s certified a subspace that contains a planted element of rank %d < %d%s' % (e['fn'], e['r'] - 1, e['r'], (' (bound %s)' % e['bound']) if 'bound' in e else ''), m)
+    run_numrange(ctx, quick)
     ctx.sample(dict(kind='basis-event', cls=meta1[10]['cls'], expected=meta1[10]['expected'], got=meta1[10]['got']))
     ctx.sample(dict(kind='planted-event', meta=meta2[0], fn=ev2[0]['fn'], certified=ev2[0]['certified']))
 
